@@ -347,7 +347,9 @@ def run (env : Env) (depth : Nat) (ro : Bool) (self : Addr) (w : World) (clogs :
     run env depth ro self (w.addLog self n tag) (clogs ++ [w.newLog self n tag]) tr rest
   | .selfdestruct ben =>
     if roBlocked ro .selfdestruct 0 then failWith w tr .writeProtection else
-    { world := (w.addBalance ben (w.getBalance self)).suicide self, logs := clogs, trace := tr }
+    -- the gas function runs first (refund counter), then opSuicide
+    let w0 := w.selfdestructRefund self
+    { world := (w0.addBalance ben (w0.getBalance self)).suicide self, logs := clogs, trace := tr }
   | .call id kind target value body rest =>
     if roBlocked ro kind.op value then failWith w tr .writeProtection else
     let r := callFrameK env depth ro self kind target value
